@@ -551,5 +551,70 @@ def r20_7(ctx):
          ctx.bad(construct, f"the link target is `{tgt[:60]}`, not get_link_anchor(child): for some children the `:ref:` names an anchor that is never written", w.loc(cont[0])))
 
 
+def r20_8(ctx):
+    """R20.8 (a) a relation is rewritten only into an equivalent one: every table of gen_kconfig_doc that maps relation constants to relation
+    constants is, entry for entry, the negation (`!(A < B)` is `A >= B`) or, entry for entry, the mirror image for swapped operands
+    (`A < B` is `B > A`) - a table that mixes the two shows a condition with a different truth value; (b) a symbol is a docs-target
+    constant by *prefix*: the name tests of the target folding, folded for `IDF_TARGET`, `IDF_TARGET_ESP32` (target) and
+    `BOOTLOADER_SKIP_IDF_TARGET_CHECK` (an ordinary user option), tell them apart; (c) the deprecated-options list links a replacement
+    only if it is not a choice option (those have no section of their own and, in a promptless definition, no anchor at all)."""
+    from ..foldcheck import Unfoldable, fold_str_expr
+    from .common import expand_locals, facts_imply
+    repo = ctx.repo
+    m = repo.module(DOC)
+    RELS = {"EQUAL": lambda c: c == 0, "UNEQUAL": lambda c: c != 0, "LESS": lambda c: c < 0, "LESS_EQUAL": lambda c: c <= 0,
+            "GREATER": lambda c: c > 0, "GREATER_EQUAL": lambda c: c >= 0}
+    n_tab = 0
+    for st in m.tree.body:
+        v = st.value if isinstance(st, (ast.Assign, ast.AnnAssign)) else None
+        if not isinstance(v, ast.Dict) or not v.keys:
+            continue
+        def rel(e):
+            t = ast.unparse(e).split(".")[-1]
+            return t if t in RELS else None
+        if not all(k is not None and rel(k) and rel(x) for k, x in zip(v.keys, v.values)):
+            continue
+        n_tab += 1
+        name = ast.unparse(st.targets[0] if isinstance(st, ast.Assign) else st.target)
+        construct = f"{name}/relation table is a consistent negation or a consistent mirror"
+        neg = all(all(RELS[rel(x)](c) == (not RELS[rel(k)](c)) for c in (-1, 0, 1)) for k, x in zip(v.keys, v.values))
+        mir = all(all(RELS[rel(x)](-c) == RELS[rel(k)](c) for c in (-1, 0, 1)) for k, x in zip(v.keys, v.values))
+        (ctx.ok(construct, f"{m.relpath}:{st.lineno}", kind="negation" if neg else "mirror") if neg or mir else
+         ctx.bad(construct, "the table is neither the negation nor the operand swap of every relation it lists (e.g. it sends `<` to `>` and `=` to `!=`): a condition "
+                 "rewritten through it is shown with another truth value for equal operands", f"{m.relpath}:{st.lineno}"))
+    ctx.ok("gen_kconfig_doc/relation-to-relation tables examined", "", nontrivial=False, tables=n_tab)
+    # (b)
+    f = repo.func(f"{DOC}:ConfigTargetVisibility._is_item_target_constant")
+    ctx.analysed(f.qual)
+    tests = [n.test for n in ast.walk(f.node) if isinstance(n, ast.If) and "target_env_var" in ast.unparse(n.test) and "name" in ast.unparse(n.test)]
+    if not tests:
+        raise AnchorError("_is_item_target_constant: no name test against target_env_var")
+    t = ast.parse(expand_locals(f.node, tests[0]), mode="eval").body
+    subj = next((ast.unparse(x) for x in ast.walk(t) if isinstance(x, ast.Attribute) and x.attr == "name"), "item.name")
+    for w, want in (("IDF_TARGET", True), ("IDF_TARGET_ESP32", True), ("BOOTLOADER_SKIP_IDF_TARGET_CHECK", False)):
+        construct = f"ConfigTargetVisibility._is_item_target_constant/`{w}` is {'the target or derived from it' if want else 'an ordinary option'}"
+        try:
+            got = bool(fold_str_expr(t, {subj: w, "self.target_env_var": "IDF_TARGET"}))
+        except Unfoldable as e:
+            raise AnalysisError(f"_is_item_target_constant: name test `{ast.unparse(t)[:60]}` cannot be folded ({e})")
+        (ctx.ok(construct, f.loc(tests[0])) if got == want else
+         ctx.bad(construct, f"the name test `{ast.unparse(t)[:60]}` is {got}: " + ("the target symbol is not folded" if want else
+                                                                               "a user option is folded to its current value and what depends on it is left out of the docs"), f.loc(tests[0])))
+    # (c)
+    ad = repo.func("kconfgen.core:append_deprecated_doc")
+    ctx.analysed(ad.qual)
+    fa = Flow(ad.node, resolver=Resolver(ad.node)).run()
+    refs = [n for n in ast.walk(ad.node) if isinstance(n, ast.Constant) and isinstance(n.value, str) and ":ref:" in n.value and repo.enclosing_func(n) is ad]
+    construct = "append_deprecated_doc/no :ref: to a choice option"
+    if not refs:
+        ctx.ok(construct, ad.loc(), nontrivial=False)
+    else:
+        gs = fa.guards_at(refs[0]) or set()
+        ok = any(".choice is None" in k and p for k, p in gs) or any(".choice" in k and "or" in k and p for k, p in gs)
+        (ctx.ok(construct, ad.loc(refs[0])) if ok else
+         ctx.bad(construct, f"the link is written under {sorted(gs)}: a replacement that is a choice option has no section of its own, and one added by a promptless "
+                 "definition of the choice has no anchor at all - the :ref: dangles", ad.loc(refs[0])))
+
+
 def rules():
-    return [("R20.7", r20_7, 3), ("R20.6", r20_6, 4), ("R20.1", r20_1, 8), ("R20.2", r20_2, 3), ("R20.4", r20_4, 5), ("R20.3", r20_3, 7), ("R20.5", r20_5, 3)]
+    return [("R20.8", r20_8, 5), ("R20.7", r20_7, 3), ("R20.6", r20_6, 4), ("R20.1", r20_1, 8), ("R20.2", r20_2, 3), ("R20.4", r20_4, 5), ("R20.3", r20_3, 7), ("R20.5", r20_5, 3)]
